@@ -13,7 +13,7 @@ theorem Inv.congr {s s' : State} (hI : Inv s) (h1 : s'.pc = s.pc) (h2 : s'.lock 
     (h8 : s'.wslot = s.wslot) (h9 : s'.bad = s.bad) : Inv s' := by
   obtain ⟨kindC, kindF, lockOk, frWait, freshOk, freshUniq, freshVer, freshVerT, freshNode, wFreeTaken, preOk, postOk, ownOk, rsmTaken,
     freeTaken, pubNode, waiting, parked, listOk, scanOk, prevOk, placed, oScanOk, oNoneOk, aUnlockOk, aNextOk, aResumeOk, aFreeOk,
-    noRead, cTakeOk, allocUsed, noBad⟩ := hI
+    noRead, cTakeOk, cRemoveOk, allocUsed, noBad⟩ := hI
   constructor <;> (try unfold ListOk ScanOk PrevOk MemOk CancelPending at *) <;> simp only [h1, h2, h3, h4, h5, h6, h7, h8, h9] <;> assumption
 
 set_option maxHeartbeats 1600000 in
@@ -39,7 +39,7 @@ theorem Inv.pcOnly {s : State} (hI : Inv s) {a : Actor} {p : Pc}
   have hI' := hI
   obtain ⟨kindC, kindF, lockOk, frWait, freshOk, freshUniq, freshVer, freshVerT, freshNode, wFreeTaken, preOk, postOk, ownOk, rsmTaken,
     freeTaken, pubNode, waiting, parked, listOk, scanOk, prevOk, placed, oScanOk, oNoneOk, aUnlockOk, aNextOk, aResumeOk, aFreeOk,
-    noRead, cTakeOk, allocUsed, noBad⟩ := hI
+    noRead, cTakeOk, cRemoveOk, allocUsed, noBad⟩ := hI
   constructor
   case kindC => inv_auto
   case kindF => inv_auto
@@ -86,6 +86,7 @@ theorem Inv.pcOnly {s : State} (hI : Inv s) {a : Actor} {p : Pc}
   case aFreeOk => inv_auto
   case noRead => inv_auto
   case cTakeOk => inv_auto
+  case cRemoveOk => inv_auto
   case allocUsed => inv_auto
   case noBad => inv_auto
 
